@@ -127,7 +127,69 @@ def P_varn_vard(c, np):
     c.op('*', 'close', f=0)
 
 
-PROGRAMS = [P_enddef, P_enddef_coll_hdr, P_numrecs, P_fill, P_redef_move, P_redef_move_multi, P_redef_move_coll, P_blocking, P_nonblocking, P_datamode_header, P_open_read, P_varn_vard]
+def P_read_paths(c, np):
+    """every read path once: several nonblocking reads aggregated into one transfer (separate user buffers), non-contiguous
+    buffer types with and without byte swapping, strided / mapped / list-of-subarrays forms, collective and independent"""
+    c.op('*', 'create', f=0, path='a.nc', fmt=1)
+    c.op('*', 'def_dim', name='t', unlim=1); c.op('*', 'def_dim', name='x', len=np * 4)
+    c.op('*', 'def_var', name='fx', xtype='int', dims=[1]); c.op('*', 'def_var', name='bv', xtype='byte', dims=[1]); c.op('*', 'def_var', name='rv', xtype='int', dims=[0, 1])
+    c.op('*', 'enddef', f=0)
+    for r in range(np):
+        c.op(r, 'put', f=0, form='vara', v=0, s=[4 * r], c=[4], coll=1, mem='int', vals=[10 + r, 11 + r, 12 + r, 13 + r])
+        c.op(r, 'put', f=0, form='vara', v=1, s=[4 * r], c=[4], coll=1, mem='schar', vals=[1 + r, 2 + r, 3 + r, 4 + r])
+        c.op(r, 'put', f=0, form='vara', v=2, s=[0, 4 * r], c=[2, 4], coll=1, mem='int', vals=[20 + r + k for k in range(8)])
+    for coll in (1, 0):
+        if not coll: c.op('*', 'begin_indep', f=0)
+        for r in range(np):
+            # two nonblocking reads, user buffers apart in memory, completed together
+            c.op(r, 'get', f=0, form='vara', v=0, s=[4 * r], c=[2], mem='int', nb='i', req=0)
+            c.op(r, 'get', f=0, form='vara', v=0, s=[4 * r + 2], c=[2], mem='int', nb='i', req=1)
+            c.op(r, 'wait', f=0, ids=['q0', 'q1'], all=coll)
+            c.op(r, 'get', f=0, form='vara', v=1, s=[4 * r], c=[1], mem='schar', nb='i', req=2)
+            c.op(r, 'get', f=0, form='vara', v=2, s=[1, 4 * r], c=[1, 2], mem='int', nb='i', req=3)
+            c.op(r, 'get', f=0, form='varn', v=2, mem='int', n=2, nd=2, s0=[0, 4 * r], c0=[1, 1], s1=[1, 4 * r + 2], c1=[1, 2], nb='i', req=4)
+            c.op(r, 'wait', f=0, ids=['q2', 'q3', 'q4'], all=coll)
+            # blocking flexible reads into non-contiguous buffers: no swap (byte), swap (int), conversion
+            c.op(r, 'get', f=0, form='vara', v=1, s=[4 * r], c=[4], coll=coll, mem='schar', api='flex', lay='vec:1:2')
+            c.op(r, 'get', f=0, form='vara', v=0, s=[4 * r], c=[4], coll=coll, mem='int', api='flex', lay='vec:2:3')
+            c.op(r, 'get', f=0, form='vara', v=0, s=[4 * r], c=[4], coll=coll, mem='double', api='flex', lay='idx')
+            c.op(r, 'get', f=0, form='vars', v=0, s=[4 * r], c=[2], st=[2], coll=coll, mem='int')
+            c.op(r, 'get', f=0, form='varm', v=2, s=[0, 4 * r], c=[2, 2], st=[1, 1], imap=[1, 2], coll=coll, mem='int')
+            c.op(r, 'get', f=0, form='varn', v=0, mem='int', n=2, nd=1, s0=[4 * r], c0=[1], s1=[4 * r + 2], c1=[2], coll=coll)
+        if not coll: c.op('*', 'end_indep', f=0)
+    c.op('*', 'close', f=0)
+
+
+def P_write_paths(c, np):
+    """every write path once: aggregated nonblocking writes from separate buffers, buffered writes, non-contiguous buffer types
+    with and without byte swapping / conversion, strided / mapped / list forms, in-place swap on and off, collective and independent"""
+    for hint in ('nc_in_place_swap=enable', 'nc_in_place_swap=disable'):
+        c.op('*', 'create', f=0, path='a.nc', fmt=1, hints=hint)
+        c.op('*', 'def_dim', name='t', unlim=1); c.op('*', 'def_dim', name='x', len=np * 4)
+        c.op('*', 'def_var', name='fx', xtype='int', dims=[1]); c.op('*', 'def_var', name='bv', xtype='byte', dims=[1]); c.op('*', 'def_var', name='rv', xtype='int', dims=[0, 1])
+        c.op('*', 'enddef', f=0)
+        c.op('*', 'buffer_attach', f=0, size=512)
+        for coll in (1, 0):
+            if not coll: c.op('*', 'begin_indep', f=0)
+            for r in range(np):
+                c.op(r, 'put', f=0, form='vara', v=0, s=[4 * r], c=[2], mem='int', vals=[1, 2], nb='i', req=0)
+                c.op(r, 'put', f=0, form='vara', v=0, s=[4 * r + 2], c=[2], mem='int', vals=[3, 4], nb='i', req=1)
+                c.op(r, 'wait', f=0, ids=['q0', 'q1'], all=coll)
+                c.op(r, 'put', f=0, form='vara', v=2, s=[coll, 4 * r], c=[1, 2], mem='int', vals=[5, 6], nb='b', req=2)
+                c.op(r, 'put', f=0, form='varn', v=2, mem='int', n=2, nd=2, s0=[2 + coll, 4 * r], c0=[1, 1], s1=[2 + coll, 4 * r + 2], c1=[1, 2], vals=[7, 8, 9], nb='i', req=3)
+                c.op(r, 'wait', f=0, ids=['q2', 'q3'], all=coll)
+                c.op(r, 'put', f=0, form='vara', v=1, s=[4 * r], c=[4], coll=coll, mem='schar', api='flex', lay='vec:1:2', vals=[1, 2, 3, 4])
+                c.op(r, 'put', f=0, form='vara', v=0, s=[4 * r], c=[4], coll=coll, mem='int', api='flex', lay='vec:2:3', vals=[1, 2, 3, 4])
+                c.op(r, 'put', f=0, form='vara', v=0, s=[4 * r], c=[4], coll=coll, mem='double', api='flex', lay='idx', vals=[1, 2, 3, 4])
+                c.op(r, 'put', f=0, form='vars', v=0, s=[4 * r], c=[2], st=[2], coll=coll, mem='int', vals=[1, 2])
+                c.op(r, 'put', f=0, form='varm', v=2, s=[0, 4 * r], c=[2, 2], st=[1, 1], imap=[1, 2], coll=coll, mem='int', vals=[1, 2, 3, 4])
+                c.op(r, 'put', f=0, form='varn', v=0, mem='int', n=2, nd=1, s0=[4 * r], c0=[1], s1=[4 * r + 2], c1=[2], coll=coll, vals=[1, 2, 3])
+            if not coll: c.op('*', 'end_indep', f=0)
+        c.op('*', 'buffer_detach', f=0)
+        c.op('*', 'close', f=0)
+
+
+PROGRAMS = [P_read_paths, P_write_paths, P_enddef, P_enddef_coll_hdr, P_numrecs, P_fill, P_redef_move, P_redef_move_multi, P_redef_move_coll, P_blocking, P_nonblocking, P_datamode_header, P_open_read, P_varn_vard]
 
 
 def mkcase(prog, np, fault=None, tag=''):
